@@ -136,3 +136,33 @@ func vRWMutexHeldNative(m interface {
 var vGoCalls int
 
 func vGo(f func()) { vGoCalls++ }
+
+// vRealtime is set for native replays of violations only: timer durations are then
+// measured on the wall clock. In ordinary native validation runs the expected duration is
+// returned (no wall-clock dependence, no flakiness).
+var vRealtime bool
+
+// vTimerWait lets the armed timer of t expire and returns how long it was armed for.
+// Engine: the ghost duration recorded at Reset. Native: see vRealtime.
+func vTimerWait(t *rtxTimer, expect time.Duration) time.Duration {
+	if !vRealtime {
+		if t.timer.Stop() {
+			t.timeout()
+		}
+		return expect
+	}
+	t.mutex.Lock()
+	before := t.nRtos
+	t.mutex.Unlock()
+	start := time.Now()
+	for time.Since(start) < 20*expect+time.Second {
+		time.Sleep(2 * time.Millisecond)
+		t.mutex.Lock()
+		n := t.nRtos
+		t.mutex.Unlock()
+		if n != before {
+			return time.Since(start)
+		}
+	}
+	return time.Since(start)
+}
